@@ -240,6 +240,7 @@ fn oracle_c12(case: &Case, outs: &[ImplRes]) -> Result<(), String> {
             // int-status entries end with value `01`?? (empty octet string) and signature absent
             expect_eq("integer value", e, &want)
         }
+        "tlf-long-octet" => expect_eq("octet string behind a very long type-length field", first, &case.aux[0]),
         "bool-value" => {
             let b = unhex(&case.aux[1]).unwrap()[0];
             let evs = items(main);
